@@ -33,10 +33,20 @@ type solver struct {
 	dumpDir                string // if set, final assertion queries are dumped here
 	script                 strings.Builder
 	keepScript             bool
+	nDump                  int
+	inQuery                bool
+	base                   strings.Builder
+	fallbackArgv           []string
+	nFallback              int
+	fallbackTime           time.Duration
 }
 
 func newSolver(tt *termTable, argv []string, timeoutMs int) *solver {
 	s := &solver{tt: tt, argv: argv, timeout: timeoutMs}
+	if d := os.Getenv("GOSX_DUMP_SLOW"); d != "" {
+		s.dumpDir = d
+		s.keepScript = true
+	}
 	s.start()
 	return s
 }
@@ -77,6 +87,10 @@ func (s *solver) send(line string) {
 		s.script.WriteString(line)
 		s.script.WriteByte('\n')
 	}
+	if !s.inQuery && (strings.HasPrefix(line, "(declare-") || strings.HasPrefix(line, "(define-") || strings.HasPrefix(line, "(assert")) {
+		s.base.WriteString(line)
+		s.base.WriteByte('\n')
+	}
 	if _, err := io.WriteString(s.in, line+"\n"); err != nil {
 		panic(engineAbort{"solver write: " + err.Error()})
 	}
@@ -95,10 +109,13 @@ func (s *solver) resetState() {
 	s.declV = map[string]bool{}
 	s.declF = map[string]bool{}
 	s.script.Reset()
+	s.base.Reset()
 	s.send("(reset)")
-	s.send("(set-option :print-success false)")
 	if strings.Contains(s.argv[0], "z3") {
+		s.send("(set-option :print-success false)")
 		s.send(fmt.Sprintf("(set-option :timeout %d)", s.timeout))
+	} else {
+		s.send("(set-logic ALL)")
 	}
 }
 
@@ -184,6 +201,8 @@ func (s *solver) check(extra *Term, wantModel []*Term) (satResult, map[string]*b
 		s.define(v)
 	}
 	start := time.Now()
+	s.inQuery = true
+	defer func() { s.inQuery = false }()
 	s.send("(push 1)")
 	if extra != nil && !extra.IsTrue() {
 		s.send("(assert " + ref(extra) + ")")
@@ -214,10 +233,22 @@ func (s *solver) check(extra *Term, wantModel []*Term) (satResult, map[string]*b
 		s.nUnsat++
 	default:
 		res = resUnknown
+		if len(s.fallbackArgv) > 0 {
+			s.send("(pop 1)")
+			s.solverTime += time.Since(start)
+			return s.fallback(extra, wantModel)
+		}
 		s.nUnknown++
 	}
 	s.send("(pop 1)")
-	s.solverTime += time.Since(start)
+	el := time.Since(start)
+	s.solverTime += el
+	if s.dumpDir != "" && (el > 2*time.Second || res == resUnknown) {
+		s.nDump++
+		if s.nDump <= 5 {
+			os.WriteFile(fmt.Sprintf("%s/slow-%d-%d.smt2", s.dumpDir, os.Getpid(), s.nDump), []byte(s.script.String()), 0o644)
+		}
+	}
 	return res, model
 }
 
@@ -261,36 +292,149 @@ func (s *solver) getValues(vs []*Term) map[string]*big.Int {
 
 // parseValues parses "((name val) (name val) ...)" positionally.
 func parseValues(txt string, vs []*Term, model map[string]*big.Int) {
-	// tokenise values: find each "#x..", "#b..", "true", "false", "(_ bvN W)"
-	idx := 0
-	rest := txt
-	for idx < len(vs) {
-		// skip to the name of vs[idx]
-		nm := ref(vs[idx])
-		p := strings.Index(rest, nm)
-		if p < 0 {
-			panic(engineAbort{"solver get-value: cannot find " + nm + " in " + txt})
+	p := 0
+	skipWS := func() {
+		for p < len(txt) && (txt[p] == ' ' || txt[p] == '\n' || txt[p] == '\t' || txt[p] == '\r') {
+			p++
 		}
-		rest = strings.TrimLeft(rest[p+len(nm):], " ")
+	}
+	fail := func(why string) {
+		panic(engineAbort{"solver get-value: " + why + " in " + txt})
+	}
+	skipWS()
+	if p >= len(txt) || txt[p] != '(' {
+		fail("no opening parenthesis")
+	}
+	p++
+	for idx := 0; idx < len(vs); idx++ {
+		skipWS()
+		if p >= len(txt) || txt[p] != '(' {
+			fail("pair expected")
+		}
+		p++
+		skipWS()
+		// name
+		if txt[p] == '|' {
+			q := strings.IndexByte(txt[p+1:], '|')
+			if q < 0 {
+				fail("unterminated name")
+			}
+			p += q + 2
+		} else {
+			for p < len(txt) && txt[p] != ' ' && txt[p] != '\n' {
+				p++
+			}
+		}
+		skipWS()
+		// value
+		start := p
+		if txt[p] == '(' {
+			depth := 0
+			for p < len(txt) {
+				if txt[p] == '(' {
+					depth++
+				} else if txt[p] == ')' {
+					depth--
+					if depth == 0 {
+						p++
+						break
+					}
+				}
+				p++
+			}
+		} else {
+			for p < len(txt) && txt[p] != ')' && txt[p] != ' ' && txt[p] != '\n' {
+				p++
+			}
+		}
+		tok := txt[start:p]
 		var val *big.Int
 		switch {
-		case strings.HasPrefix(rest, "#x"):
-			end := strings.IndexAny(rest, ") ")
-			val, _ = new(big.Int).SetString(rest[2:end], 16)
-		case strings.HasPrefix(rest, "#b"):
-			end := strings.IndexAny(rest, ") ")
-			val, _ = new(big.Int).SetString(rest[2:end], 2)
-		case strings.HasPrefix(rest, "true"):
+		case strings.HasPrefix(tok, "#x"):
+			val, _ = new(big.Int).SetString(tok[2:], 16)
+		case strings.HasPrefix(tok, "#b"):
+			val, _ = new(big.Int).SetString(tok[2:], 2)
+		case tok == "true":
 			val = big.NewInt(1)
-		case strings.HasPrefix(rest, "false"):
+		case tok == "false":
 			val = big.NewInt(0)
-		case strings.HasPrefix(rest, "(_ bv"):
-			end := strings.Index(rest[5:], " ")
-			val, _ = new(big.Int).SetString(rest[5:5+end], 10)
-		default:
-			panic(engineAbort{"solver get-value: cannot parse value for " + nm + ": " + rest})
+		case strings.HasPrefix(tok, "(_ bv"):
+			f := strings.Fields(tok[5:])
+			val, _ = new(big.Int).SetString(f[0], 10)
+		}
+		if val == nil {
+			fail("cannot parse value " + tok)
 		}
 		model[vs[idx].name] = val
-		idx++
+		skipWS()
+		if p < len(txt) && txt[p] == ')' {
+			p++
+		}
 	}
+}
+
+// fallback re-decides pc ∧ extra with a second solver (one-shot process) after
+// the primary one answered unknown.
+func (s *solver) fallback(extra *Term, wantModel []*Term) (satResult, map[string]*big.Int) {
+	start := time.Now()
+	s.nFallback++
+	var sb strings.Builder
+	sb.WriteString("(set-logic ALL)\n(set-option :produce-models true)\n")
+	sb.WriteString(s.base.String())
+	if extra != nil && !extra.IsTrue() {
+		sb.WriteString("(assert " + ref(extra) + ")\n")
+	}
+	sb.WriteString("(check-sat)\n")
+	if s.dumpDir != "" {
+		s.nDump++
+		if s.nDump <= 3 {
+			os.WriteFile(fmt.Sprintf("%s/fb-%d-%d.smt2", s.dumpDir, os.Getpid(), s.nDump), []byte(sb.String()), 0o644)
+		}
+	}
+	cmd := exec.Command(s.fallbackArgv[0], s.fallbackArgv[1:]...)
+	cmd.Stdin = strings.NewReader(sb.String())
+	out, _ := cmd.Output()
+	ans := strings.TrimSpace(string(out))
+	if strings.Contains(ans, "(error") {
+		fmt.Fprintln(os.Stderr, "fallback solver error:", ans)
+		s.nUnknown++
+		return resUnknown, nil
+	}
+	var res satResult
+	switch {
+	case strings.HasPrefix(ans, "unsat"):
+		res = resUnsat
+		s.nUnsat++
+	case strings.HasPrefix(ans, "sat"):
+		res = resSat
+		s.nSat++
+	default:
+		s.nUnknown++
+		s.fallbackTime += time.Since(start)
+		s.solverTime += time.Since(start)
+		return resUnknown, nil
+	}
+	var model map[string]*big.Int
+	if res == resSat && len(wantModel) > 0 {
+		var names []string
+		for _, v := range wantModel {
+			names = append(names, ref(v))
+		}
+		sb.WriteString("(get-value (" + strings.Join(names, " ") + "))\n")
+		cmd := exec.Command(s.fallbackArgv[0], s.fallbackArgv[1:]...)
+		cmd.Stdin = strings.NewReader(sb.String())
+		out, _ := cmd.Output()
+		txt := string(out)
+		if k := strings.Index(txt, "("); k >= 0 && !strings.Contains(txt, "(error") {
+			model = map[string]*big.Int{}
+			parseValues(txt[k:], wantModel, model)
+		} else {
+			s.fallbackTime += time.Since(start)
+			s.solverTime += time.Since(start)
+			return resUnknown, nil
+		}
+	}
+	s.fallbackTime += time.Since(start)
+	s.solverTime += time.Since(start)
+	return res, model
 }
